@@ -48,6 +48,8 @@ def run_function(modules, fid, timeout_ms, opts, split):
             rep["trace"] = p.get("trace")
             continue
         rep["obligations"] += p.get("obligations", [])
+        if p.get("replay_ctx"):
+            rep["replay_ctx"] = p["replay_ctx"]
         rep["paths"] += p.get("paths", 0)
         for k, v in p.get("outcomes", {}).items():
             rep["outcomes"][k] = rep["outcomes"].get(k, 0) + v
@@ -213,7 +215,8 @@ def finish(pid, tier, seed, cfg, reports, drift, extra, t0):
         path = os.path.join("replays", pid, sanitize(o["name"]) + ".json")
         rp = {"property": pid, "function": fid, "obligation": o["name"], "clause": o.get("clause"), "kind": o.get("kind"),
               "solver": {"backend": o.get("backend"), "verdict": "sat (counter-model)" if o.get("model") is not None else "sat", "reason": o.get("reason"), "goal": o.get("goal")},
-              "counter_model": o.get("model"), "repo": REPO, "custom_replay": o.get("custom_replay")}
+              "counter_model": o.get("model"), "repo": REPO, "custom_replay": o.get("custom_replay"),
+              "exit_kind": o.get("kind"), "modules": cfg.get("modules"), "replay_ctx": (reports.get(fid) or {}).get("replay_ctx")}
         with open(os.path.join(HERE, path), "w") as f:
             json.dump(rp, f, indent=1)
         res = o.get("native") or native_replay(pid, fid, rp, os.path.join(HERE, path))
